@@ -76,9 +76,26 @@ def mesh_table_specs(tier: str) -> list[dict]:
     return out
 
 
+def narrow_dtype_specs(tier: str) -> list[dict]:
+    """Connectivity stored in the narrowest integer type that holds it, on meshes with more than 99 (int8)
+    / 9999 (int16, thorough) elements: fill values have to be clamped to the type."""
+    nodes, faces = builders._lattice_mesh(10, 10)
+    specs = [{'family': 'ugrid', 'mesh': 'lattice-10x10', 'nodes': nodes, 'faces': faces, 'conn_dtype': 'int8',
+              'fill': 'fillattr', 'supplied': ['face_face'], 'nt': 1, 'nk': 1}]
+    if tier == 'thorough':
+        nodes, faces = builders._lattice_mesh(100, 100)
+        specs.append({'family': 'ugrid', 'mesh': 'lattice-100x100', 'nodes': nodes, 'faces': faces, 'conn_dtype': 'int16',
+                      'fill': 'fillattr', 'nt': 1, 'nk': 1})
+    return specs
+
+
 def clip_cases(tier: str, purpose: str) -> list[dict]:
     quick = tier == 'quick'
     out = []
+    for spec in narrow_dtype_specs(tier):
+        for regime in ('file', 'raw'):
+            for geom in ('everything', 'with-hole'):
+                out.append({'spec': spec, 'regime': regime, 'geometry': geom, 'buffer': 0})
     geometries = GEOMETRIES if not quick else ('tiny', 'cell-envelope', 'everything', 'line', 'with-hole')
     buffers = (0, 1)
     for spec in dataset_specs(tier, purpose):
